@@ -29,9 +29,15 @@ def scenario(rng, S, M, hashmode, nsweeps):
     while i < n_fill or sweeps_left > 0:
         if i < n_fill:
             k = keys.pop()
-            lines.append("ins %d %d" % (k, k * 10 % 997))
+            lines.append("%s %d %d" % (rng.choice(["ins", "ins", "insmv", "upsmv", "ioamv"]), k, k * 10 % 997))
             present.append(k)
             i += 1
+            if rng.random() < 0.25:
+                # C16: duplicate paths must leave the arguments alone; compatible key types must agree
+                d = rng.choice(present)
+                lines.append("%s %d %d" % (rng.choice(["insmv", "upsmv", "ioamv"]), d, 5))
+                lines.append("%s %d 0" % (rng.choice(["findp", "containsp"]), rng.choice([d, keys[-1]])))
+                lines.append("find %d 0" % d)
             if rng.random() < 0.15 and present:
                 lines.append("erase %d" % present.pop(rng.randrange(len(present))))
         if rng.random() < 0.3 or i >= n_fill:
@@ -65,7 +71,12 @@ def scenario(rng, S, M, hashmode, nsweeps):
     if present:
         lines += ["upsthrow %d 4" % present[0], "scan", "find %d 0" % present[0]]
     lines += ["upsthrow %d 4" % keys.pop(), "scan"]
-    lines += ["lock 0 0", "ltins %d 1" % keys.pop(), "unlock 0 0", "scan", "oldfreed", "destroy"]
+    if present:
+        lines += ["updp %d 4242" % present[-1], "find %d 0" % present[-1], "erasep %d 0" % present[-1], "find %d 0" % present[-1]]
+    lines += ["lock 0 0", "ltins %d 1" % keys.pop(), "ltinsmv %d 2" % keys.pop()]
+    if present:
+        lines += ["ltinsmv %d 3" % present[0]]
+    lines += ["unlock 0 0", "scan", "oldfreed", "destroy"]
     return lines
 
 
@@ -93,6 +104,8 @@ def classify(line_in, line_out):
         if "is held after the call" in msg:
             props.add("C04")
         return props, msg
+    if line_out.startswith("ARGS") or line_out.startswith("HETERO"):
+        return {"C16"}, line_out
     if line_out.startswith("scan BAD") or line_out.startswith("destroy BAD") or line_out.startswith("oldfreed BAD"):
         return {"C08"} | ({"C07"} if "stored twice" in line_out or "size()" in line_out else set()), line_out
     if line_out.startswith("err") and line_in.split()[0] not in ("upsthrow",) and "eqthrow" not in line_out \
